@@ -405,6 +405,14 @@ func (tic *TermInCommittee) HandlePrePrepare(ppm *interfaces.PreprepareMessage) 
 
 	header := ppm.Content().SignedHeader()
 
+	// a proposal is only acted upon in its own view (processPreprepare): one for another view is dropped here, before
+	// the block is validated - validating it would hand the SPI the context of a view this node is not in, which no
+	// election of the node's own view cancels
+	if tic.State.View() != header.View() {
+		tic.logger.Debug("LHMSG RECEIVED PREPREPARE IGNORE: message from incorrect view %d", header.View())
+		return
+	}
+
 	ctx, err := tic.State.Contexts.For(state.NewHeightView(header.BlockHeight(), header.View()))
 	if err != nil {
 		tic.logger.Info("LHFLOW LHMSG RECEIVED PREPREPARE IGNORE - %e", err)
